@@ -147,6 +147,8 @@ def oracle(cases, obs):
     for i, (c, ol) in enumerate(zip(cases, obs)):
         taint = mc.tainted_prefix(ol)
         for k, (op, o) in enumerate(zip(c["ops"], ol)):
+            if o["oracle"]["canon"] and any("registry" in str(x) or "label" in str(x) for x in o["oracle"]["canon"]):
+                fails.append((i, k, f"the container registry gen_fun reads changed: {o['oracle']['canon'][-1]}")); break
             g = o.get("genfun")
             if not g or "skipped" in g:
                 continue
